@@ -2,6 +2,7 @@
 //
 //	{"cmd":"read","path":p}    open, select everything from table t, close
 //	{"cmd":"hold","path":p}    start a select and park inside its row callback
+//	{"cmd":"hold-forgotten","path":p}  the same on a handle nothing refers to once the select runs (and that is never closed), with garbage collections inside the callback
 //	{"cmd":"release"}          let the parked select finish
 //	{"cmd":"rawlock","path":p} / {"cmd":"rawshared","path":p} / {"cmd":"rawunlock"}   fcntl locks on the shared range without any reading
 package main
@@ -11,6 +12,8 @@ import (
 	"encoding/json"
 	"fmt"
 	"os"
+	"runtime"
+	"time"
 
 	"github.com/alicebob/sqlittle"
 	"golang.org/x/sys/unix"
@@ -25,6 +28,32 @@ type resp struct {
 	Rows int
 	Err  string
 	Held bool
+}
+
+// scanForgotten opens a handle and selects from t the way a one-shot helper
+// without a Close does: once Select runs nothing refers to the handle any
+// more. The first row's callback lets the garbage collector run (twice, with
+// time for finalisers) and parks.
+//
+//go:noinline
+func scanForgotten(path string, inside chan bool, release chan struct{}) (rows int, err error, entered bool) {
+	db, err := sqlittle.Open(path)
+	if err != nil {
+		return 0, err, false
+	}
+	err = db.Select("t", func(sqlittle.Row) {
+		rows++
+		if !entered {
+			entered = true
+			runtime.GC()
+			time.Sleep(2 * time.Millisecond)
+			runtime.GC()
+			time.Sleep(time.Millisecond)
+			inside <- true
+			<-release
+		}
+	}, "a")
+	return rows, err, entered
 }
 
 func main() {
@@ -102,6 +131,34 @@ func main() {
 				r := <-done
 				release, done = nil, nil
 				reply(r)
+			}
+		case "hold-forgotten":
+			if release != nil {
+				reply(resp{Err: "already holding"})
+				continue
+			}
+			release = make(chan struct{})
+			done = make(chan resp, 1)
+			{
+				inside := make(chan bool, 1)
+				go func(path string, release chan struct{}) {
+					n, err, entered := scanForgotten(path, inside, release)
+					r := resp{Rows: n}
+					if err != nil {
+						r.Err = err.Error()
+					}
+					done <- r
+					if !entered {
+						inside <- false
+					}
+				}(q.Path, release)
+				if <-inside {
+					reply(resp{Held: true})
+				} else {
+					r := <-done
+					release, done = nil, nil
+					reply(r)
+				}
 			}
 		case "release":
 			if release == nil {
